@@ -8,3 +8,11 @@ func zzArmShortDeadlines() {
 }
 
 func zzExpireDeadlines() { time.Sleep(2500 * time.Millisecond) }
+
+// reads have a short deadline, everything else a long one
+func zzArmMixedDeadlines() {
+	opReadTimeout = 600 * time.Millisecond
+	opWriteTimeout, opSyncTimeout, opUnmapTimeout, opPingTimeout = 25*time.Second, 25*time.Second, 25*time.Second, 25*time.Second
+}
+
+func zzExpireFirstDeadline() { time.Sleep(3500 * time.Millisecond) }
